@@ -89,7 +89,7 @@ MUTANTS = {
         ("tiny-values-zeroed-after-solve", O, "                results = Results(value       = prob.value,\n                                  x           = x.value,",
          "                results = Results(value       = prob.value,\n                                  x           = np.where(np.abs(x.value) < 0.05, 0., x.value),"),
         ("eao-sets-iteration-limit", O, "                prob.solve(solver = getattr(CVX, solver))",
-         "                prob.solve(solver = getattr(CVX, solver), **({'scipy_options': {'maxiter': 3}} if solver == 'SCIPY' else {}))"),
+         "                prob.solve(solver = getattr(CVX, solver), **({'scipy_options': {'maxiter': 3}} if solver == 'SCIPY' else {'max_iter': 3} if solver == 'CLARABEL' else {}))"),
         ("upper-bound-dropped", O, "            constraints = [ x <= self.u, x>=self.l ]", "            constraints = [ x <= self.u + 1e-3*(np.abs(self.u)+1), x>=self.l ]"),
     ],
 }
